@@ -25,12 +25,22 @@ SHAPES = {
                              ("g", "lambda x: 0 if x <= 0 else g(x - 1) + 1", False)],
     "via_attr": [("f", "lambda x: 0 if x <= 0 else _space.f(x - 1) + 1", True)],
     "comprehension": [("f", "lambda x: 0 if x <= 0 else sum([f(x - 1) for t in range(1)]) + 1", True)],
+    "genexp": [("f", "lambda x: 0 if x <= 0 else sum(f(x - 1) for t in range(1)) + 1", True)],
 }
+
+# Shapes in which every level of the chain re-enters the interpreter from C (a Python __getattr__, a generator driven by
+# a built-in).  CPython 3.12 caps that kind of nesting with a compile-time constant that sys.setrecursionlimit does not
+# move (about 500 levels of the first shape and 750 of the second on 3.12.1): past it the interpreter itself raises
+# RecursionError, inside modelx's code or the formula, whatever limit modelx was given.  That is an exception raised at
+# an arbitrary depth like any other - everything the statement says about a failed evaluation is judged - but it is not
+# modelx's depth error and a chain stopped by it is not a chain modelx refused to evaluate.
+C_NESTING = {"via_attr", "genexp"}
+C_NESTING_FLOOR = 450
 
 
 NEXT = {"self_def": {"f": "f"}, "self_lambda": {"f": "f"}, "mutual": {"f": "g", "g": "f"},
         "through_uncached": {"f": "g", "g": "f"}, "all_uncached_but_top": {"f": "g", "g": "g"}, "via_attr": {"f": "f"},
-        "comprehension": {"f": "f"}}
+        "comprehension": {"f": "f"}, "genexp": {"f": "f"}}
 
 
 def plan(rng, tier):
@@ -123,7 +133,22 @@ def run(ctx, pid):
             if sysm.callstack or sysm.executor.is_executing:
                 raise Violation("%s/deep/left-marked-executing" % pid, {"n": n, "limit": L, "shape": shape})
             after = held(space, shape)
-            if chain < L:
+            err = None
+            if outcome[0] == "exc":
+                err = m.get_error() if hasattr(m, "get_error") else mx.get_error()
+            if (isinstance(err, RecursionError) and not isinstance(err, DeepReferenceError)
+                    and shape in C_NESTING and chain > C_NESTING_FLOOR):
+                # the interpreter's own cap, see C_NESTING
+                ctx.count("interpreter_recursion_cap:RecursionError", 1, "faults_fired")
+                ctx.nontrivial = True
+                want_exc = "FormulaError" if steps[0].get("formula_error", True) else "RecursionError"
+                if outcome[1] != want_exc:
+                    raise Violation("%s/deep/wrong-error-type/%s" % (pid, outcome[1]), {"want": want_exc, "carried": "RecursionError"})
+                if after != before:
+                    gained = {name: sorted(set(after[name]) - set(before[name]))[:5] for name in after}
+                    raise Violation("%s/deep/failing-chain-left-values" % pid, {"n": n, "limit": L, "shape": shape, "gained": repr(gained),
+                                                                               "carried": "RecursionError"})
+            elif chain < L:
                 ctx.count("deep_below_limit", 1, "reach")
                 if outcome != ("ok", n):
                     raise Violation("%s/deep/chain-below-limit-did-not-evaluate/%s" % (pid, outcome[1] if outcome[0] == "exc" else "value"),
@@ -140,7 +165,6 @@ def run(ctx, pid):
                 want_exc = "FormulaError" if st.get("formula_error", steps[0].get("formula_error", True)) else "DeepReferenceError"
                 if outcome[1] != want_exc:
                     raise Violation("%s/deep/wrong-error-type/%s" % (pid, outcome[1]), {"want": want_exc})
-                err = m.get_error() if hasattr(m, "get_error") else mx.get_error()
                 if not isinstance(err, DeepReferenceError):
                     raise Violation("%s/deep/get_error-not-the-depth-error/%s" % (pid, type(err).__name__), {})
                 if after != before:
